@@ -52,6 +52,9 @@ type ScriptConn struct {
 	// OnClose is called once when the session closes the connection.
 	OnClose func()
 	SID     string
+	// CloseErr, if non-nil, is what Close reports although the connection does get closed
+	// (a child process exiting non-zero, a failed DELETE).
+	CloseErr error
 
 	mu      sync.Mutex
 	queue   []inItem
@@ -189,7 +192,7 @@ func (s *ScriptConn) Close() error {
 			s.OnClose()
 		}
 	})
-	return nil
+	return s.CloseErr
 }
 
 // Closed is closed when the session has closed the connection.
